@@ -128,6 +128,7 @@ pub fn n_runs(check: &str, tier: &str) -> u64 {
 pub fn timeout_s(check: &str, tier: &str) -> u64 {
     match check {
         "C27" => 1500,
+        "C14" | "C15" => 5,
         "C09" => if tier == "quick" { 10 } else { 30 },
         "C05" => 5,
         _ => 15,
